@@ -184,7 +184,7 @@ func runChild(bin string, env []string, logPath string, watchdog time.Duration, 
 	}
 }
 
-var pionFrame = regexp.MustCompile(`github\.com/pion/turn/v5(/internal/[a-z]+)?\.[^\s(]*|github\.com/pion/turn/v5\.\(\*[A-Za-z]+\)\.[A-Za-z]+`)
+var pionFrame = regexp.MustCompile(`github\.com/pion/turn/v5(/internal/[a-z]+)?\.(\(\*?[A-Za-z]+\)\.)?[A-Za-z_][A-Za-z0-9_.]*`)
 
 // crashSummary extracts the panic/fatal line and the pion/turn frames from a child log.
 func crashSummary(logPath string) (headline string, frames []string, isRace bool) {
@@ -210,30 +210,41 @@ func crashSummary(logPath string) (headline string, frames []string, isRace bool
 	return headline, frames, isRace
 }
 
-func countRaces(dir string) (int, []string) {
+// countRaces counts race reports that involve pion/turn code (lib) and those whose stacks are
+// harness-only (a harness bug: the run is broken, not a verdict), with a de-duplication key of
+// the first library frames of each report.
+func countRaces(dir string) (lib int, heads []string, harnessOnly int) {
 	matches, _ := filepath.Glob(filepath.Join(dir, "race.*"))
-	n := 0
-	var heads []string
+	seen := map[string]bool{}
 	for _, m := range matches {
 		b, _ := os.ReadFile(m)
-		c := strings.Count(string(b), "WARNING: DATA RACE")
-		n += c
-		if c > 0 && len(heads) < 5 {
-			// first pion frames of the report as a dedupe key
+		blocks := strings.Split(string(b), "WARNING: DATA RACE")
+		for _, blk := range blocks[1:] {
 			var fr []string
-			for _, l := range strings.Split(string(b), "\n") {
-				if strings.Contains(l, "verifharness") {
+			for _, l := range strings.Split(blk, "\n") {
+				if strings.Contains(l, "verifharness") || strings.HasPrefix(l, "      ") {
 					continue
 				}
 				if mm := pionFrame.FindString(l); mm != "" && len(fr) < 4 {
-					fr = append(fr, mm)
+					fr = append(fr, strings.TrimPrefix(mm, "github.com/pion/turn/v5"))
 				}
 			}
-			heads = append(heads, strings.Join(fr, " | "))
+			if len(fr) == 0 {
+				harnessOnly++
+
+				continue
+			}
+			lib++
+			key := strings.Join(fr, " | ")
+			if !seen[key] && len(heads) < 8 {
+				seen[key] = true
+				heads = append(heads, key)
+			}
 		}
 	}
+	sort.Strings(heads)
 
-	return n, heads
+	return lib, heads, harnessOnly
 }
 
 func loadFindings() []finding {
@@ -595,7 +606,10 @@ func report(prop, tier string, seed int64, meta propMeta, all []result, crashes 
 			fmt.Printf("%s in case %d: %s %v\n", kind, cr.caseNo, cr.headline, cr.frames)
 		}
 	}
-	races, raceHeads := countRaces(runDir)
+	races, raceHeads, harnessRaces := countRaces(runDir)
+	if harnessRaces > 0 {
+		inconclusive = append(inconclusive, fmt.Sprintf("%d race reports involve only harness code (harness bug)", harnessRaces))
+	}
 	if races > 0 && meta.RaceIsViolation {
 		sig := "race:" + strings.Join(raceHeads[:min(1, len(raceHeads))], "")
 		if known(sig) == nil {
